@@ -2979,9 +2979,12 @@ class ChannelManager:
         # Connect
         try:
             await channel.connect()
-        except Exception:
-            logger.exception('connection failed')
-            del connection_channels[source_cid]
+        except BaseException as error:
+            # (also when the caller gives up: a cancelled connect must not leave the
+            # channel behind)
+            if isinstance(error, Exception):
+                logger.exception('connection failed')
+            connection_channels.pop(source_cid, None)
             raise
 
         return channel
